@@ -61,6 +61,7 @@ type Interp struct {
 	funcsStd   map[string]int
 	modelsUsed map[string]int
 	repoPrefix string
+	targetPkg  string // import path of the package under test (harness package)
 
 	// digest universe etc. live in models
 	mstate *modelState
@@ -466,7 +467,16 @@ func (it *Interp) depth(fr *frame) int {
 }
 
 func (it *Interp) countFunc(fn *ssa.Function) {
+	if name, ok := fnNameCache[fn]; ok {
+		if fnIsRepoCache[fn] {
+			it.funcsRepo[name]++
+		} else {
+			it.funcsStd[name]++
+		}
+		return
+	}
 	name := fn.String()
+	fnNameCache[fn] = name
 	pkg := fn.Package()
 	if pkg == nil && fn.Origin() != nil {
 		pkg = fn.Origin().Package()
@@ -475,6 +485,7 @@ func (it *Interp) countFunc(fn *ssa.Function) {
 		pkg = fn.Parent().Package()
 	}
 	if pkg != nil && strings.HasPrefix(pkg.Pkg.Path(), it.repoPrefix) {
+		fnIsRepoCache[fn] = true
 		it.funcsRepo[name]++
 	} else {
 		it.funcsStd[name]++
